@@ -10,10 +10,10 @@ PROP = "C05"
 
 def workload(tier: str, seed: int) -> tuple[list[dict], dict]:
     if tier == "quick":
-        want = {"corpus": 1, "core-exh": 110, "core-rand": 60, "edge": 40}
+        want = {"corpus": 1, "core-exh": 110, "core-rand": 60, "edge": 40, "same-end": 40}
         ks, s2 = (2,), 1
     else:
-        want = {"corpus": 1, "core-exh": 100000, "core-rand": 1500, "edge": 400}
+        want = {"corpus": 1, "core-exh": 100000, "core-rand": 1500, "edge": 400, "same-end": 500}
         ks, s2 = (2, 3), 3
     defs = lcase.definitions(tier, seed + 2000, want)
     cases, stats = lcase.s1_cases(defs, seed, k_list=ks, schedules=2, check_extra=False)
@@ -32,7 +32,8 @@ def main(tier: str, seed: int) -> int:
         PROP, tier, seed,
         rule="every text emitted for the C01 workload (corpus-63, F_core exhaustive-small + "
              "random, F_edge incl. loops ending in a fork and several start events; S1 and S2 "
-             "job sets) is run through a strict pushdown checker of the dialect and its event "
+             "job sets; plus - beyond F - definitions where all branches of one AND/OR fork end "
+             "in the same event type, which provokes branch counts) is run through a strict pushdown checker of the dialect and its event "
              "names compared with the input event types. distinct = distinct (definition, "
              "stratum, k, size); trivial = no fork or loop")
     chk.assumptions = [
